@@ -192,6 +192,12 @@ class Taint:
                     fw = self._param_of_arg(call, tg, f, names)
                     handled = False
                     for g, q in fw:
+                        memo = [d for d in g.decos if d.split(".")[-1] in ("lru_cache", "cache") or "memoize" in d]
+                        if memo and self._validates_somewhere(g, q, validators):
+                            wit = "%s: `%s` is validated inside %s, which is wrapped in `%s`: the arguments are hashed before the validator runs (a bytearray raises TypeError instead) and a cache hit (an equal memoryview) skips it" \
+                                % (f.loc(call), p, g.short, memo[0])
+                            handled = True
+                            break
                         sub = self.check(g, q, validators, depth + 1)
                         if sub is None and self._validates_somewhere(g, q, validators):
                             clean = True
@@ -489,6 +495,20 @@ def _int_eval(e, env):
 @rule("VAL3", ["C18"])
 def val3(ctx, pid):
     """Constructor guards: key_size in 1..32; no snapshot from a pruning trie; no ref_count for a non-pruning trie."""
+    # no instance of a guarded class is made behind its constructor's back
+    byp = []
+    for g_ in util.all_functions(ctx, include_tools=False):
+        for c_ in ast.walk(g_.node):
+            if isinstance(c_, ast.Call) and isinstance(c_.func, ast.Attribute) and c_.func.attr == "__new__" and c_.args:
+                t0 = ctx.R.type_of(c_.args[0], g_)
+                if t0 is not None and t0[0] == "cls" and t0[1].qual in (HEX, BIN, SMT, PROOF):
+                    byp.append((g_, c_, t0[1]))
+    if byp:
+        g_, c_, cl = byp[0]
+        ctx.bad("constructor-bypass:%s" % fkey(g_), g_.loc(c_), "`%s` makes a %s without running __init__: the constructor's argument checks (key size, pruning / ref_count combination, root hash type) are skipped"
+                % (util.norm_src(c_), cl.name))
+    else:
+        ctx.ok("constructor-bypass", "trie/", "no __new__ call creates a trie object without its validating constructor", nontrivial=False)
     # (a) SparseMerkleTree.__init__
     f = ctx.P.func(SMT + ".__init__")
     tr = Trace(ctx, f)
